@@ -83,20 +83,16 @@ theorem py_check_ka_eq_model (r : Recv) (nowMs : Nat) (k : Kind) :
         simp [liftRecvTimer, liftRecvKa, Recv.toPy, hsingle, TimerTable.h0KaNotify]
     · simp [liftRecvTimer, liftRecvKa, Recv.toPy]
 
-/-- `SendTimer.need_ka` as translated = `Send.needKa` of the model. -/
+/-- `SendTimer.need_ka` as translated = `Send.needKa` of the model.  The proof does not follow the shape of the
+    translated code (which changes with every harmless rewrite of timer.py): every `if` of both sides is split and
+    each case is closed by rewriting and linear arithmetic over the casts. -/
 theorem py_need_ka_eq_model (s : Send) (nowMs : Nat) :
     SendTimer.need_ka s.toPy (secs nowMs) = liftSend (s.needKa nowMs) := by
-  unfold SendTimer.need_ka Send.needKa Send.toPy
-  by_cases h0 : s.keepalive = 0
-  · simp [h0, liftSend, Send.toPy]
-  · have h0' : ¬ ((s.keepalive : Int) = 0) := by omega
-    simp [h0, h0', liftSend, Send.toPy]
-    by_cases hl : s.lastSent + s.keepalive ≤ secs nowMs
-    · have hl' : (s.lastSent : Int) + s.keepalive - secs nowMs ≤ 0 := by omega
-      simp [hl, hl']
-      intro h; rw [h]
-    · have hl' : ¬ (s.lastSent : Int) + s.keepalive - secs nowMs ≤ 0 := by omega
-      simp [hl, hl']
-      intro h; rw [h]
+  unfold SendTimer.need_ka Send.needKa Send.toPy liftSend
+  simp only [beq_iff_eq, bne_iff_ne, ne_eq, decide_eq_true_eq, Bool.not_eq_true', decide_eq_false_iff_not,
+    Bool.and_eq_true, Bool.or_eq_true, Bool.not_eq_eq_eq_not, Bool.not_true, Bool.not_false]
+  repeat' split
+  all_goals (first | omega | (simp_all [Send.toPy] <;> (try omega)) | skip)
+  all_goals (first | omega | (constructor <;> omega) | skip)
 
 end Exa.Timer
